@@ -348,6 +348,10 @@ func (p *Peer) unpackFrame(content []byte) (MsgCode, []byte, error) {
 	if err != nil {
 		return 0, nil, err
 	}
+	if len(originData) < 4 {
+		// too short to carry a message code; originData[4:] below would panic
+		return 0, nil, ErrUnavailablePackage
+	}
 	code := binary.BigEndian.Uint32(originData[:4])
 	if len(originData) == 4 {
 		return MsgCode(code), nil, nil
